@@ -152,6 +152,8 @@ func main() {
 					continue
 				}
 				pathCount[it.fn]++
+				pn := pathCount[it.fn]
+				wantWitness := len(stats[it.fn].Witnesses) < engine.MaxWitnesses && (pn&(pn-1) == 0 || pn%97 == 0)
 				inflight++
 				if _, ok := starts[it.fn]; !ok {
 					starts[it.fn] = time.Now()
@@ -159,6 +161,7 @@ func main() {
 				mu.Unlock()
 
 				eng.Stats = engine.NewStats()
+				eng.WantWitness = wantWitness
 				res, alts := eng.RunPath(it.fn, it.prefix)
 				if *verbose {
 					fmt.Fprintf(os.Stderr, "[w%d] %s %s %s (%d decisions)\n", w, it.fn.Name(), res.Status, firstLine(res.Msg), len(res.Decisions))
